@@ -230,7 +230,7 @@ let () =
        (* C02: documents with `sections` decode as index maps, documents with `x_facebook_sources` as Hermes maps, everything else as
           regular maps -- whatever else the document holds. A JSON null is an absent key. (fb: length class of the value text) *)
        let has_sections = (sections <> "-" && sections <> "null") and has_fb = (fb <> "1" && fb <> "4") in
-       let want = (if has_sections then (match sections with "[]" -> "index0" | "[S]" -> "index1:regular" | "[S,S2]" -> "index2:regular:regular" | "[N]" -> "index1:index" | _ -> "?")
+       let want = (if has_sections then (match sections with "[]" -> "index0" | "[S]" -> "index1:regular" | "[S,S2]" -> "index2:regular:regular" | "[N]" -> "index1:index" | "[U]" -> "index1:none" | "[S,U]" -> "index2:regular:none" | _ -> "?")
                    else if has_fb then (if with_mappings = "1" then "hermes" else "hermes-or-err")
                    else (if with_mappings = "1" then "regular" else "regular-or-err")) in
        let ok = (impl = want) || (want = "hermes-or-err" && (impl = "hermes" || String.length impl > 3 && String.sub impl 0 3 = "err"))
